@@ -30,8 +30,16 @@ def lib(name, params, **kw):
     return REG.add(Contract("lib:" + name, params=params, assumed=True, properties=("C08", "C19"), **kw))
 
 
+resub = z3.Function("re_sub", PyObj, PyObj, S, S)
+import re as _re
+import hashlib as _hl
+_COMMA_PAT = z3.Const("const_%s" % _hl.sha1(repr(_re.compile(r"(\d),(\d)")).encode()).hexdigest()[:10], PyObj)
+REG.axioms.append(("T-re:comma-decimal-mark-substitution-is-csub",
+                   z3.ForAll([_s], resub(_COMMA_PAT, obj_of_str(z3.StringVal("\\1.\\2")), _s) == csub(_s),
+                             patterns=[resub(_COMMA_PAT, obj_of_str(z3.StringVal("\\1.\\2")), _s)]), "num"))
+
 lib("re.sub", {"pattern": "any", "repl": "any", "string": STR}, returns=STR,
-    ensures=lambda c: [("csub", c.res.t == csub(c.a["string"].t))], noraise=True,
+    ensures=lambda c: [("re.sub", c.res.t == resub(c.eng.to_obj(c.a["pattern"]), c.eng.to_obj(c.a["repl"]), c.a["string"].t))], noraise=True,
     note="T-re: re.sub with the comma-decimal-mark pattern is a function of its input string and does not raise on a str")
 
 
@@ -44,7 +52,7 @@ lib("np.int64", {"x": "any"}, returns=OBJ,
     ensures=lambda c: [("value", c.res.t == int_obj(_txt(c.a["x"])))],
     note="T-re: np.int64(str) succeeds exactly on the language L_INT (validated to length 6) and then equals int(str)")
 lib("np.float64", {"x": "any"}, returns=OBJ,
-    raises=[("Any", lambda c: z3.Not(float_ok(_txt(c.a["x"]))))],
+    raises=[("ValueError", lambda c: z3.Not(float_ok(_txt(c.a["x"]))))],
     ensures=lambda c: [("value", c.res.t == float_obj(_txt(c.a["x"])))],
     note="T-re: np.float64(str) succeeds exactly on L_FLOAT_NUM | L_FLOAT_WORD")
 finite_obj = z3.Function("np_isfinite", PyObj, B)
